@@ -6,6 +6,7 @@
 package main
 
 import (
+	"arkverif/gcwin"
 	"arkverif/parsim"
 	"context"
 	"encoding/json"
@@ -159,6 +160,8 @@ func cmdWork(args []string) int {
 	states := map[uint64]bool{}
 	if *prop == "C13" {
 		workPar(*tier, *seed, *worker, *budget, *maxRuns, o, states)
+	} else if isGCWorker(*prop, *worker) {
+		workGC(*prop, *tier, *seed, *worker, *budget, *maxRuns, o, states)
 	} else if *prop == "C12" || *prop == "C20" {
 		workTrace(*prop, *tier, *seed, *worker, *budget, *maxRuns, o, states)
 	} else {
@@ -225,6 +228,9 @@ func cmdReplay(args []string) int {
 	}
 	if rp.Engine == "B" {
 		return replayPar(&rp, args[0])
+	}
+	if rp.Engine == "G" && (rp.Viol == nil || rp.Viol.Oracle == "gc.window") {
+		return replayGC(&rp, args[0])
 	}
 	if rp.Mode == "regen" {
 		return replayRegen(&rp, args[0])
@@ -362,6 +368,10 @@ func runWorkers(propv, tierv string, seedv uint64, engine string) int {
 			ctx, cancel := context.WithTimeout(context.Background(), time.Duration(tc.budget*3+90)*time.Second)
 			cmd := exec.CommandContext(ctx, os.Args[0], "work", "-prop", *prop, "-tier", *tier, "-seed", fmt.Sprint(*seed), "-worker", fmt.Sprint(i), "-budget", fmt.Sprint(tc.budget), "-out", outFile)
 			cmd.Env = append(os.Environ(), "GOMAXPROCS=2")
+			if *prop == "C11" {
+				// freed objects are overwritten: a component that refers to freed memory reads garbage
+				cmd.Env = append(cmd.Env, "GODEBUG=clobberfree=1")
+			}
 			if *prop == "C13" {
 				cmd.Env = append(cmd.Env, "GORACE=halt_on_error=0 exitcode=0 log_path="+filepath.Join(tmp, fmt.Sprintf("race-w%d", i)))
 			}
@@ -704,6 +714,8 @@ func replayRegen(rp *sim.Replay, path string) int {
 		switch rp.Engine {
 		case "B":
 			parsim.RunSession(rp.Seed, rp.Tier, rp.Worker, rp.Run, raceLogPath(), nil)
+		case "G":
+			gcwin.Run(rp.Seed, rp.Worker, rp.Run)
 		case "C":
 			o := newWorkerOut(rp.Worker)
 			workTraceRuns(rp.Property, rp.Tier, rp.Seed, rp.Worker, rp.Run/16*16, rp.Run/16*16+16, o, map[uint64]bool{})
